@@ -675,7 +675,7 @@ def _reserved(run, P):
                    and isinstance(n.func, ast.Attribute) and n.func.attr == "startswith"
                    and any(isinstance(x, ast.Name) and x.id == f.params[1] for x in ast.walk(n.func.value))
                    and n.args and (string_value(n.args[0]) or "").lower().startswith("dagrt")]
-    how = norm(by_spelling[0]) if by_spelling else ""
+    how = norm(by_spelling[0]).replace(f.params[1] + ".", "<name>.", 1) if by_spelling else ""
     run.ob("C13.reserved", f, by_spelling[0] if by_spelling else f.node, not by_spelling,
            construct="FortranNameManager.name_local: names spelled dagrt_* are exempt from the user prefix"
                      + (f" (test: {how})" if how else ""),
